@@ -784,11 +784,77 @@ def r02_4(ctx, counts) -> RuleResult:
     return res
 
 
+def r02_5(ctx, counts) -> RuleResult:
+    """string value = text of the descendants in document order"""
+    model: Model = ctx.model
+    res = RuleResult(
+        'R02.5', 'TAIL-AFTER-DESCENDANTS',
+        'The string value of an element is the concatenation of its descendant text nodes in '
+        'document order. In an ElementTree the text that follows an element (its `tail`) comes '
+        'after the text of all its descendants. A generator that walks `<elem>.iter()` — a '
+        'pre-order traversal — and yields `e.tail` in the iteration that visits `e` emits the '
+        'tail BEFORE the text of e\'s descendants: <r><a>1<b>x</b>y</a>2</r> gives "12xy". '
+        'Functions of elementpath/etree.py and xpath_nodes.py that yield both `.text` and `.tail` '
+        'of the loop variable of a `for … in ….iter()` loop are the instances; the tail yield is '
+        'the violation (a depth-first walk with an explicit stack, or itertext(), is the sound '
+        'shape). A `continue` for comments/PIs placed before the tail yield also drops the '
+        'text that follows a comment.')
+    n = 0
+    for f in sorted(model.all_functions(), key=lambda q: q.key):
+        if f.module.name not in ('elementpath.etree', 'elementpath.xpath_nodes'):
+            continue
+        for loop in [x for x in walk_local(f.node) if isinstance(x, ast.For)]:
+            if not (isinstance(loop.iter, ast.Call) and isinstance(loop.iter.func, ast.Attribute)
+                    and loop.iter.func.attr == 'iter' and isinstance(loop.target, ast.Name)):
+                continue
+            v = loop.target.id
+            yields = [y for st in loop.body for y in ast.walk(st) if isinstance(y, ast.Yield)
+                      and y.value is not None]
+            text_y = [y for y in yields if any(isinstance(a, ast.Attribute) and a.attr == 'text'
+                                               and dotted(a.value) == v for a in ast.walk(y.value))]
+            tail_y = [y for y in yields if any(isinstance(a, ast.Attribute) and a.attr == 'tail'
+                                               and dotted(a.value) == v for a in ast.walk(y.value))]
+            if not text_y and not tail_y:
+                continue
+            n += 1
+            res.instances.append(f'{f.key}: pre-order loop over `{stmt_text(loop.iter)}` yields '
+                                 f'{len(text_y)} text / {len(tail_y)} tail value(s) of `{v}`')
+            if not tail_y:
+                res.ok()
+            # a comment/PI has no text of its own but its tail is text of the parent
+            for st in loop.body:
+                if isinstance(st, ast.If) and 'callable(' in stmt_text(st.test) \
+                        and any(isinstance(x, ast.Continue) for x in ast.walk(st)) and tail_y \
+                        and st.lineno < min(y.lineno for y in tail_y):
+                    res.fail(finding('R02.5', f, st, 'comment skip drops the tail',
+                                     f'`if {stmt_text(st.test)}: continue` skips a comment or '
+                                     f'processing instruction together with its tail: the text '
+                                     f'that follows it is lost (string(<r>a<!--c-->b</r>) = "a")'))
+                elif isinstance(st, ast.If) and 'callable(' in stmt_text(st.test):
+                    res.ok()
+            for y in tail_y:
+                res.fail(finding('R02.5', f, y, f'yield {v}.tail in pre-order',
+                                 f'`{stmt_text(y)[:50]}` is executed when the pre-order traversal '
+                                 f'visits `{v}`, i.e. before the text of its descendants: the '
+                                 f'string value of <r><a>1<b>x</b>y</a>2</r> is "12xy" instead '
+                                 f'of "1xy2"'))
+    counts['preorder_string_loops'] = n
+    # the string value of elements must be computed somewhere in these modules
+    users = [f for f in model.all_functions() if f.module.name == 'elementpath.xpath_nodes'
+             and f.name == 'string_value']
+    if len(users) < 3:
+        raise AnalysisError(f'only {len(users)} string_value implementations located')
+    res.instances.append(f'{len(users)} string_value implementations in xpath_nodes.py')
+    res.ok()
+    return res
+
+
 def run(ctx) -> dict:
     global _MODEL
     _MODEL = ctx.model
     counts: dict[str, int] = {}
-    results = [r02_1(ctx, counts), r02_2(ctx, counts), r02_3(ctx, counts), r02_4(ctx, counts)]
+    results = [r02_1(ctx, counts), r02_2(ctx, counts), r02_3(ctx, counts), r02_4(ctx, counts),
+               r02_5(ctx, counts)]
     return {
         'results': results, 'counts': counts,
         'explanation':
